@@ -8,7 +8,8 @@
    on the decided record and, when the task has retries left, reopens it (witnesses at the end of
    the file; replayed on the engine).  The theorem therefore asks, per event, for one of:
    the event does not address the decided record; it addresses an engine command; it addresses
-   the record as a new start of a staged task (a loop iteration: a NEW record is appended); or the
+   the record as a new start of a task staged again and not flagged completed (a loop iteration: a
+   NEW record is appended); or the
    record has no retry left and the event is not the engine's internal retry event. *)
 From Coq Require Import String List Bool ZArith Arith Lia.
 From Orq Require Import GenStatuses GenEvents GenTables GenSpecMeta Base State Machines Codec Conductor Decode Api.
@@ -517,7 +518,7 @@ Qed.
 (* when the event may be delivered without touching the frozen record *)
 Definition sel_ok (t : string) (evt : event) (s0 : option stg) (e0 : option nat) : Prop :=
   e0 <> Some i \/ is_engine_command t = true \/
-  (status_in (ev_status evt) STARTING_STATUSES = true /\ s0 <> None) \/
+  (status_in (ev_status evt) STARTING_STATUSES = true /\ exists s, s0 = Some s /\ s_completed s = false) \/
   (is_retry_event evt = false /\ ~ retry_open r0).
 
 Lemma fresh_not_frozen : forall t rt ins prev c c' idx,
@@ -543,13 +544,13 @@ Proof.
   assert (A2 : idx <> i \/ (is_retry_event evt = false /\ ~ retry_open r0)).
   { unfold uts_sel2 in E2.
     destruct (ostatus_in (r_status r1) COMPLETED_STATUSES && status_in (ev_status evt) STARTING_STATUSES
-              && match s0 with Some _ => true | None => false end) eqn:Ec.
+              && match s0 with Some s1 => negb (s_completed s1) | None => false end) eqn:Ec.
     - left. apply bind_val_inv' in E2. destruct E2 as [c0 [s [_ Ha]]]. eapply fresh_not_frozen; eassumption.
     - inversion E2; subst idx c2; clear E2.
       destruct A1 as [A1|[He Hcmd]]; [left; exact A1|].
       destruct (Nat.eq_dec idx1 i) as [->|Hn]; [|left; exact Hn].
-      destruct Hok as [Hok|[Hok|[[Hst Hs0]|Hok]]]; [congruence|congruence| |right; exact Hok].
-      exfalso. rewrite (sd_decided r1 (Fz_status _ _ Hf1 Hr1)), Hst in Ec. destruct s0; [discriminate|congruence]. }
+      destruct Hok as [Hok|[Hok|[[Hst [s1 [Hs0 Hsc]]]|Hok]]]; [congruence|congruence| |right; exact Hok].
+      exfalso. rewrite (sd_decided r1 (Fz_status _ _ Hf1 Hr1)), Hst in Ec. subst s0. rewrite Hsc in Ec. discriminate. }
   eapply bind_fz; [exact H|exact Hf2|apply pfz_unstage|apply PostP_exc|]. clear H.
   intros c3 u3 _ Hf3 H.
   eapply bind_fz; [exact H|exact Hf3|apply pfz_item|apply PostP_exc|]. clear H.
@@ -567,7 +568,8 @@ Qed.
 (* the same, stated on the conductor state the call starts in *)
 Definition safe (c : cstate) (t : string) (route : nat) (evt : event) : Prop :=
   ws_task_idx (c_ws c) t route <> Some i \/ is_engine_command t = true \/
-  (c_init c = true /\ status_in (ev_status evt) STARTING_STATUSES = true /\ get_staged_task (c_ws c) t route <> None) \/
+  (c_init c = true /\ status_in (ev_status evt) STARTING_STATUSES = true /\
+   exists s, get_staged_task (c_ws c) t route = Some s /\ s_completed s = false) \/
   (is_retry_event evt = false /\ ~ retry_open r0).
 
 Lemma prefix_fz : forall t route evt c c' res,
@@ -1207,7 +1209,8 @@ Qed.
 Lemma safe_unfold : forall i r0 c t route evt,
   safe i r0 c t route evt <->
   (ws_task_idx (c_ws c) t route <> Some i \/ is_engine_command t = true \/
-   (c_init c = true /\ status_in (ev_status evt) STARTING_STATUSES = true /\ get_staged_task (c_ws c) t route <> None) \/
+   (c_init c = true /\ status_in (ev_status evt) STARTING_STATUSES = true /\
+   exists s, get_staged_task (c_ws c) t route = Some s /\ s_completed s = false) \/
    (is_retry_event evt = false /\ ~ retry_open r0)).
 Proof. intros; split; intro H; exact H. Qed.
 
